@@ -19,6 +19,8 @@ LABELSETS = {
     "str16": ["n%02d" % i for i in range(8)] + ["m%d" % i for i in range(8, 16)],
 }
 LAYERS = ["a", "b", "c"]
+# layer names are arbitrary hashable values: not necessarily mutually comparable, possibly falsy, possibly look-alikes
+LAYERSETS = [LAYERS, LAYERS, ["a", 1, "1"], [0, 1, 2], ["", "b", 7]]
 MD_KEYS = ["k", "col", "x"]
 MD_VALUES = [0, 1, 2, "r", "s", True, None, 1.5, [1, 2], [2, 1], {"z": 1}, "blue", 3, ["b", "a", "c"], "", False, [], {}, 0.0]
 CRIT_VALUES = [2, 3, "r", "s", "blue", 0, ""]
@@ -503,7 +505,7 @@ def gen_config(rng, kind, tier, extra_ops=(), extra_weight=1.0):
         "reject_rate": rng.choice([0.0, 0.1, 0.3]),
         "profile": rng.choice(sorted(PROFILES)),
         "length": rng.randint(30, 90) if large else rng.randint(5, 60 if tier == "quick" else 150),
-        "layers": rng.sample(LAYERS, rng.randint(1, 3)),
+        "layers": rng.sample(rng.choice(LAYERSETS), rng.randint(1, 3)),
         "extra_ops": list(extra_ops),
         "big_times": rng.random() < 0.2,  # temporal worlds: times far beyond the 0..6 range (two-digit, 2**31, 10**12)
         "large": large,
